@@ -22,6 +22,7 @@ import (
 	"errors"
 	"fmt"
 	"io"
+	"math"
 	"net"
 	"os"
 	"sort"
@@ -46,6 +47,9 @@ func init() {
 }
 
 var rlDebug = os.Getenv("VERIF_DEBUG") != ""
+
+// "none": the effectively infinite idle timeout of repo commit 637b35e
+const rlNoIdleTimeout = time.Duration(math.MaxInt64 / 4)
 
 // watchdog: a scenario that does not finish within 60 s of WALL clock is a livelock (a run loop
 // spinning at one virtual instant never lets the bubble's clock advance). The bubble cannot be
@@ -226,6 +230,11 @@ func genRLCase(r *u.Rng) rlCase {
 	c.SrvIdle = genDur(r, time.Second, 30*time.Second)
 	if r.Chance(1, 4) {
 		c.SrvIdle = c.CliIdle
+	}
+	if r.Chance(1, 10) {
+		// no idle timeout of its own (what configCoveringSpec gives a spec-driven client whose transport parameters
+		// advertise no max_idle_timeout): only the peer's value counts
+		c.CliIdle = rlNoIdleTimeout
 	}
 	ka := func(idle time.Duration) time.Duration {
 		switch r.Intn(6) {
@@ -939,6 +948,7 @@ type rlCloseReq struct {
 	Kind      int
 	Code      uint64
 	Immediate bool
+	Via       int // 0 closeLocal / destroyImpl, 1 Conn.CloseWithError, 2 Transport.Close, 3 the idle timer
 }
 
 type rlCloseCase struct {
@@ -948,6 +958,8 @@ type rlCloseCase struct {
 	Blackhole bool
 	Reqs      []rlCloseReq
 	Dg        [2]bool // Config.EnableDatagrams of client, server
+	Race      bool    // the requests are issued concurrently, each from its own goroutine, at one virtual instant
+	RaceIdle  bool    // ... which is the instant at which the connection's idle timer fires
 }
 
 func (c rlCloseCase) String() string {
@@ -955,7 +967,7 @@ func (c rlCloseCase) String() string {
 	for _, q := range c.Reqs {
 		rs = append(rs, fmt.Sprintf("(%d,%d,%v)", q.Kind, q.Code, q.Immediate))
 	}
-	return fmt.Sprintf("close server=%v plain=%v blackhole=%v datagrams(c/s)=%v/%v reqs=%s seed=%d", c.Server, c.Plain, c.Blackhole, c.Dg[0], c.Dg[1], strings.Join(rs, ""), c.Seed)
+	return fmt.Sprintf("close server=%v plain=%v blackhole=%v datagrams(c/s)=%v/%v race=%v raceidle=%v reqs=%s seed=%d", c.Server, c.Plain, c.Blackhole, c.Dg[0], c.Dg[1], c.Race, c.RaceIdle, strings.Join(rs, ""), c.Seed)
 }
 
 func genCloseCase(r *u.Rng) rlCloseCase {
@@ -985,6 +997,25 @@ func genCloseCase(r *u.Rng) rlCloseCase {
 		c.Dg = [2]bool{false, true}
 	default:
 		c.Dg = [2]bool{true, false}
+	}
+	if r.Chance(1, 3) {
+		// racing closes: the accessor's requests plus the public ways to end a connection, all at one instant
+		c.Race = true
+		if r.Bool() {
+			c.Reqs = append(c.Reqs, rlCloseReq{Kind: quic.VerifErrApp, Code: uint64(r.Intn(1000)), Via: 1})
+		}
+		if r.Chance(1, 3) {
+			c.Reqs = append(c.Reqs, rlCloseReq{Kind: quic.VerifErrOther, Immediate: true, Via: 2})
+		}
+		if r.Chance(1, 3) {
+			c.RaceIdle = true
+			c.Reqs = append(c.Reqs, rlCloseReq{Kind: quic.VerifErrIdle, Immediate: true, Via: 3})
+		}
+		// shuffle
+		for i := len(c.Reqs) - 1; i > 0; i-- {
+			j := r.Intn(i + 1)
+			c.Reqs[i], c.Reqs[j] = c.Reqs[j], c.Reqs[i]
+		}
 	}
 	return c
 }
@@ -1016,7 +1047,7 @@ func runOneClose(c rlCloseCase, o *rlOut) {
 	err := inBubble(func() {
 		rtt := 20 * time.Millisecond
 		e, err := newSimEnv(simOpts{RTT: rtt, PlainPath: c.Plain,
-			ServerConf: &quic.Config{EnableDatagrams: c.Dg[1]}, ClientConf: &quic.Config{EnableDatagrams: c.Dg[0]}})
+			ServerConf: &quic.Config{EnableDatagrams: c.Dg[1], MaxIdleTimeout: 6 * time.Second}, ClientConf: &quic.Config{EnableDatagrams: c.Dg[0], MaxIdleTimeout: 6 * time.Second}})
 		if err != nil {
 			o.fail("runloop/env", err.Error())
 			return
@@ -1048,9 +1079,29 @@ func runOneClose(c rlCloseCase, o *rlOut) {
 		if c.Blackhole {
 			e.Router.setBlackhole(true)
 		}
+		if c.RaceIdle {
+			// go to the instant at which the idle timer of the connection fires (nothing else is pending)
+			sn := quic.VerifRunLoopSnapshot(target)
+			time.Sleep(time.Duration(sn.NextIdle - sn.Now))
+		}
 		tS := time.Since(e.Start)
 		for _, q := range c.Reqs {
-			quic.VerifRequestClose(target, quic.VerifMakeErr(q.Kind, q.Code), q.Immediate)
+			issue := func() {
+				switch q.Via {
+				case 1:
+					target.CloseWithError(quic.ApplicationErrorCode(q.Code), "race")
+				case 2:
+					tr.Close()
+				case 3: // the timer does it
+				default:
+					quic.VerifRequestClose(target, quic.VerifMakeErr(q.Kind, q.Code), q.Immediate)
+				}
+			}
+			if c.Race {
+				go issue()
+			} else {
+				issue()
+			}
 		}
 		select {
 		case <-target.Context().Done():
@@ -1071,6 +1122,36 @@ func runOneClose(c rlCloseCase, o *rlOut) {
 			if err == nil || k != ak || code != ac {
 				o.fail("runloop/api-error/"+name, fmt.Sprintf("%s returned %v, OpenStream returned %v: %s", name, err, aerr, c.String()))
 			}
+		}
+		if c.Race {
+			// exactly one of the racing requests is the recorded cause: put it first for the checks below
+			_, recImm, _ := quic.VerifRecordedCloseErr(target)
+			w := -1
+			for i, q := range c.Reqs {
+				cls := verifKindToClass(q.Kind)
+				want := cls
+				switch {
+				case q.Kind == quic.VerifErrNil:
+					want = ekCanceled
+				case q.Kind == quic.VerifErrOther && !q.Immediate:
+					want = ekTransport
+				}
+				codeMatters := want == ekApp || want == ekAppRemote || want == ekTransportRemote || (want == ekTransport && q.Kind != quic.VerifErrOther)
+				if q.Kind == quic.VerifErrOther && !q.Immediate && cc != uint64(quic.InternalError) {
+					continue // (a non-QUIC error of a non-immediate close is recorded as INTERNAL_ERROR)
+				}
+				if ck == want && (!codeMatters || cc == q.Code) && recImm == q.Immediate {
+					w = i
+					break
+				}
+			}
+			if w < 0 {
+				o.fail("runloop/race-foreign-cause", fmt.Sprintf("the recorded cause %v is none of the racing requests: %s", context.Cause(target.Context()), c.String()))
+				return
+			}
+			o.count(fmt.Sprintf("race winner via=%d of %d", c.Reqs[w].Via, len(c.Reqs)))
+			rs := append([]rlCloseReq{c.Reqs[w]}, append(append([]rlCloseReq{}, c.Reqs[:w]...), c.Reqs[w+1:]...)...)
+			c.Reqs = rs
 		}
 		_, e1 := target.OpenStreamSync(ctx)
 		check("OpenStreamSync", e1)
@@ -1137,7 +1218,10 @@ func runOneClose(c rlCloseCase, o *rlOut) {
 		if sent != wantFrame {
 			o.fail("runloop/close-frame-due", fmt.Sprintf("datagram sent at close = %v, expected %v: %s", sent, wantFrame, c.String()))
 		}
-		if !c.Blackhole && wantFrame != peerClosed {
+		if c.RaceIdle {
+			peerClosed = false // (the peer's own idle timer fires at about the same time: what it recorded says nothing)
+		}
+		if !c.Blackhole && !c.RaceIdle && wantFrame != peerClosed {
 			o.fail("runloop/peer-informed", fmt.Sprintf("peer closed = %v, expected %v: %s", peerClosed, wantFrame, c.String()))
 		}
 		if peerClosed {
@@ -1157,10 +1241,14 @@ func runOneClose(c rlCloseCase, o *rlOut) {
 		for i, q := range c.Reqs {
 			reqs[i] = u.Pair(u.Z(int64(verifKindToClass(q.Kind))), u.ZU(q.Code), u.B(q.Immediate))
 		}
-		if c.Blackhole {
+		if c.Blackhole || c.RaceIdle {
 			peerObs = "None"
 		}
-		o.emit(1, u.App("CloseCase", u.B(!c.Server), u.B(pre.SentFirstPacket), u.List(reqs), errPair(ck, cc), errPair(ak, ac), u.B(sent), u.B(c.Blackhole), peerObs, u.Z(rc)))
+		caseName := "CloseCase"
+		if c.Race {
+			caseName = "RaceCase" // (the requests are listed winner first; the model only requires the winner to be one of them)
+		}
+		o.emit(1, u.App(caseName, u.B(!c.Server), u.B(pre.SentFirstPacket), u.List(reqs), errPair(ck, cc), errPair(ak, ac), u.B(sent), u.B(c.Blackhole || c.RaceIdle), peerObs, u.Z(rc)))
 		o.count(fmt.Sprintf("close first=%d imm=%v", verifKindToClass(first.Kind), first.Immediate))
 		// monitor: after the closing period (3 PTO) the routing entries are gone
 		time.Sleep(3*time.Duration(pre.PTONoAckDelay) + time.Millisecond)
@@ -1236,6 +1324,15 @@ func runRunLoop(w *bufio.Writer, seed uint64, n int, args []string) {
 		if err != nil {
 			o.fail("runloop/leak-or-panic", "bad-tls dial: "+err.Error())
 		}
+	}
+	// CONNECTION_CLOSE while the handshake is in progress
+	hr := u.NewRng(seed ^ 0x4c5)
+	for i := 0; i < max(4, n/4); i++ {
+		code := uint64(hr.Intn(1 << 20))
+		if i%2 == 1 {
+			code = []uint64{0x1, 0x2, 0xa, 0x7, 0x128}[hr.Intn(5)]
+		}
+		runOneHsClose(i%2 == 0, code, hr.Bool(), o)
 	}
 	// fan-out over stream states (unit level)
 	fr := u.NewRng(seed ^ 0xfa0)
